@@ -107,11 +107,29 @@ MODEL_MUTANTS = [
     ('DataSource.tla', 'ChunkRows(start, stop) == [k \\in 1..(stop - start) |-> from + start + k - 1]',
      'ChunkRows(start, stop) == [k \\in 1..(stop - start) |-> (IF kind = "fast" THEN 0 ELSE from) + start + k - 1]', 'DataSource.tla', 'MC_DataSource_quick.cfg', 'InOrder'),
     ('AttrEncoder.tla', 'hasVal  == ~(stored.list /\\ stored.n = 0)', 'hasVal  == TRUE', 'AttrEncoder.tla', 'MC_AttrEncoder.cfg', 'GrammarOk'),
+    ('ChannelDims.tla', 'ELSE dim\' = d /\\ lim\' = d /\\ pc\' = "write"', 'ELSE dim\' = (IF dim = << >> THEN d ELSE dim) /\\ lim\' = lim /\\ pc\' = "write"', 'ChannelDims.tla', 'MC_ChannelDims.cfg', 'Truthful'),
     ('RP66Prim.tla', 'IF n < 128 THEN << n >>', 'IF n <= 128 THEN << n >>', 'PrimModel.tla', 'PrimModel_quick.cfg', 'RoundTrip'),
 ]
 
 
+def part_cache_switches():
+    for sw in ('Typed = TRUE/Typed = FALSE', 'BypassFloat = TRUE/BypassFloat = FALSE', 'BypassRef = TRUE/BypassRef = FALSE',
+               'Invalidate = TRUE/Invalidate = FALSE', 'MarkDerived = TRUE/MarkDerived = FALSE', 'KeepData = FALSE/KeepData = TRUE'):
+        d = tempfile.mkdtemp(prefix='stspec', dir='/tmp')
+        try:
+            for f in os.listdir(lib.SPEC):
+                shutil.copy(os.path.join(lib.SPEC, f), d)
+            a, b = sw.split('/')
+            p = os.path.join(d, 'MC_CacheModel.cfg')
+            open(p, 'w').write(open(p).read().replace(a, b))
+            r = lib.run_tlc('CacheModel.tla', 'MC_CacheModel.cfg', cwd=d, workers=8, coverage=False, timeout=600, heap='4g')
+            say('HistoryIndependent' in r['violated'], f"CacheModel with the historical behaviour '{b}': HistoryIndependent fails (violated: {r['violated']})")
+        finally:
+            shutil.rmtree(d, ignore_errors=True)
+
+
 def part_models():
+    part_cache_switches()
     for fname, old, new, module, cfg, expect in MODEL_MUTANTS:
         d = tempfile.mkdtemp(prefix='stspec', dir='/tmp')
         try:
